@@ -72,7 +72,7 @@ func runC10(c *Ctx) {
 		if clo := c.ClosureWith("C10.O2b", outer, CallTo("rec.NewLogWriter")); clo != nil {
 			c.Chain("C10.O2b", clo, nil,
 				Step{Name: "logCreator", M: DynCall("opts.logCreator"), Gated: true},
-				Step{Name: "dir.Sync", M: MethodOn("Sync", "dir"), Gated: true},
+				Step{Name: "dir.Sync", M: MethodOn("Sync", ParamName(outer, 1)), Gated: true},
 				Step{Name: "NewLogWriter", M: CallTo("rec.NewLogWriter")},
 			)
 		}
@@ -94,7 +94,7 @@ func runC10O3(c *Ctx) {
 	if fn := c.Fn("C10.O3a", "p.(*DB).compactAndWrite"); fn != nil {
 		fl := NewFlow(c.P).
 			After("synced|failed", provSync).
-			Edge("synced|failed", NonZeroGuard("result.Err")).
+			Edge("synced|failed", NonZeroGuard("Err")).
 			After("synced|failed", CallTo("compact.(Result).WithError", "compact.(*Result).WithError"))
 		res := fl.Analyze(fn, emptyState())
 		c.noteFlow(fl)
@@ -151,10 +151,10 @@ func runC10O3(c *Ctx) {
 	// C10.O3e: local writable: Flush ⊢ Sync ≺ Close, success implies both
 	if fn := c.Fn("C10.O3e", "osp.(*fileBufferedWritable).Finish"); fn != nil {
 		res := c.Chain("C10.O3e", fn, nil,
-			Step{Name: "bw.Flush", M: MethodOn("Flush", "w.bw"), Gated: true},
-			Step{Name: "file.Sync", M: MethodOn("Sync", "w.file"), Gated: true},
+			Step{Name: "bw.Flush", M: MethodOn("Flush", "recv.bw"), Gated: true},
+			Step{Name: "file.Sync", M: MethodOn("Sync", "recv.file"), Gated: true},
 		)
-		fl := NewFlow(c.P).After("did:sync|flushfailed", MethodOn("Sync", "w.file")).Ok("ok:flush", MethodOn("Flush", "w.bw")).Ok("ok:sync", MethodOn("Sync", "w.file"))
+		fl := NewFlow(c.P).After("did:sync|flushfailed", MethodOn("Sync", "recv.file")).Ok("ok:flush", MethodOn("Flush", "recv.bw")).Ok("ok:sync", MethodOn("Sync", "recv.file"))
 		res = fl.Analyze(fn, emptyState())
 		c.RequireAtSuccess("C10.O3e", res, "Flush + Sync", []string{"ok:flush", "ok:sync"})
 	}
